@@ -57,6 +57,10 @@ FRAGS = {
     "anyof_req": {"anyOf": [{"required": ["a"]}, {"required": ["b"]}]},
     "arr_contains": {"type": "array", "contains": INT}, "arr_max1": {"type": "array", "maxItems": 1},
     "arr_contains_same": {"type": "array", "contains": INT, "minItems": 1}, "arr_contains_str": {"type": "array", "contains": STR},
+    # additionalProperties / additionalItems written out as the literal `true` (the default, spelled explicitly)
+    "ap_true": {"type": "object", "additionalProperties": True}, "a_ap_true": {"type": "object", "properties": {"a": INT}, "additionalProperties": True},
+    "req_extra_ap_true": {"type": "object", "required": ["extra"], "additionalProperties": True},
+    "tup1_ai_true": {"type": "array", "items": [INT], "additionalItems": True},
     "ty_bool": {"type": "boolean"}, "enum_bool_a": {"enum": [True, "a"]},
     "ref_oneof": {"$ref": "#/definitions/PQ"}, "minprops2": {"type": "object", "minProperties": 2}, "maxprops1": {"type": "object", "maxProperties": 1},
 }
